@@ -33,7 +33,7 @@ def memoryName : List Nat := [109, 101, 109, 111, 114, 121]
 
 /-- names the first scan tolerates in the API namespace -/
 def knownName (n : List Nat) : Bool :=
-  trampolineImportPairs.any (fun p => p.1 == n || p.2 == n) || trampolineAllowList.contains n
+  trampolineImportPairs.any (fun p => p.1 == n || (!p.2.isEmpty && p.2 == n)) || trampolineAllowList.contains n
 
 def expectedSig? (n : List Nat) : Option (List Nat × List Nat) :=
   (trampolineExpectedSigs.find? (fun e => e.1 == n)).map (fun e => e.2)
